@@ -155,6 +155,33 @@ let run_case (line : string) : string =
                    if rsp.rs_link = [] then continue := false else last := lc rsp.rs_link
                  done;
                  outs := Printf.sprintf "{\"pages\":[%s]}" (String.concat "," (List.rev !pages)) :: !outs
+             | List [Atom "bc"; r; List calls] ->
+                 (* calls on the store's upload interface, sessions numbered in creation order *)
+                 let rn = cl (str r) in
+                 let ids : (int, char list) Hashtbl.t = Hashtbl.create 8 in
+                 let nsess = ref 0 in
+                 let one (a : act) : ares = let (s', x) = exec_act !cfg env a !st in st := s'; x in
+                 let info sid = match one (ASessInfo (rn, sid)) with
+                   | RSess x -> Printf.sprintf ",\"size\":%d,\"digest\":%s" (List.length x.s_data) (json_str (lc (sess_digest env x)))
+                   | _ -> "" in
+                 let res = List.map (fun c ->
+                     let sid k = match Hashtbl.find_opt ids (int k) with Some i -> i | None -> cl "?" in
+                     let fmt ok extra = Printf.sprintf "{\"ok\":%b%s}" ok extra in
+                     match c with
+                     | List [Atom "create"; alg; expect] ->
+                         let a = if str alg = "" then "sha256" else str alg in
+                         (match one (ABlobCreate (rn, cl a, cl (str expect))) with
+                          | RSess x -> Hashtbl.replace ids !nsess x.s_id; incr nsess; fmt true (info x.s_id)
+                          | _ -> Hashtbl.replace ids !nsess (cl "?"); incr nsess; fmt false "")
+                     | List [Atom "session"; k] -> (match one (ASessGet (rn, sid k)) with RSess _ -> fmt true "" | _ -> fmt false "")
+                     | List [Atom "write"; k; data] -> (match one (ASessWrite (rn, sid k, cl (str data))) with RSess _ -> fmt true (info (sid k)) | _ -> fmt false "")
+                     | List [Atom "verify"; k; d] -> (match one (ASessVerify (rn, sid k, cl (str d))) with RUnit -> fmt true (info (sid k)) | _ -> fmt false "")
+                     | List [Atom "chalg"; k; a] -> (match one (ASessChangeAlg (rn, sid k, cl (str a))) with RUnit -> fmt true (info (sid k)) | _ -> fmt false "")
+                     | List [Atom "info"; k] -> (match one (ASessInfo (rn, sid k)) with RSess _ -> fmt true (info (sid k)) | _ -> fmt false "")
+                     | List [Atom "close"; k] -> (match one (ASessClose (rn, sid k)) with RUnit -> fmt true "" | _ -> fmt false "")
+                     | List [Atom "cancel"; k] -> (match one (ASessCancel (rn, sid k)) with RUnit -> fmt true "" | _ -> fmt false "")
+                     | _ -> failwith "bc call") calls in
+                 outs := Printf.sprintf "{\"bc\":[%s]}" (String.concat "," res) :: !outs
              | List [Atom "seed"; r; conv; List bl; List entries] ->
                  (* a layout that is on disk before the server starts: its index is ingested when first loaded *)
                  let blobs = List.map (function List [d; raw] -> (cl (str d), { b_data = BRaw (cl (str raw)); b_time = !st.st_now })
